@@ -150,7 +150,9 @@ def levJson : LEv → Json
 
 def lstJson (s : LSt) : Json :=
   Json.mkObj [("value", jint s.value), ("min", jint s.min), ("max", jint s.max),
-              ("limits", jarr [jint s.limits.1, jint s.limits.2]), ("evs", jarr (s.evs.map levJson)), ("ok", Json.bool s.ok),
+              ("limits", jarr [jint s.limits.1, jint s.limits.2]),
+              ("errs", jarr [Json.bool s.vErr, Json.bool s.minErr, Json.bool s.maxErr, Json.bool s.limErr]),
+              ("evs", jarr (s.evs.map levJson)), ("ok", Json.bool s.ok),
               ("exc", jexc s.exc)]
 
 def optPair (j : Json) : R (Option (Val × Val)) := do
@@ -169,7 +171,7 @@ def parseLRec (j : Json) : R LRec := do
 
 def lcfg (j : Json) : R LCfg := do
   return { lo := ← fldInt j "lo", hi := ← fldInt j "hi", layers := ← (← fldArr j "layers").mapM parseLayer,
-           hasW := ← fldBool j "hasW" }
+           hasW := ← fldBool j "hasW", omitUnch := ← fldBool j "omit" }
 
 /-! control -/
 
@@ -256,7 +258,8 @@ def handle (j : Json) : R Json := do
         ("vdict", jarr (r.vdict.map (fun e => jarr [jint e.1, jint e.2]))), ("lo", jint r.lo), ("hi", jint r.hi)]
   | "limits" =>
     let cfg ← lcfg j; let ops ← (← fldArr j "ops").mapM parseLOp
-    let s0 := linit cfg (← fldInt j "value0")
+    let errs ← (← fldArr j "errs0").mapM (·.getBool?)
+    let s0 := linit cfg (← fldInt j "value0") (errs.getD 0 false) (errs.getD 1 false) (errs.getD 2 false) (errs.getD 3 false)
     return Json.mkObj [("init", lstJson s0), ("states", jarr ((lrun cfg s0 ops).map lstJson))]
   | "judge_limits" =>
     let layers ← (← fldArr j "layers").mapM parseLayer
